@@ -10,6 +10,7 @@ let eq_for mode : int -> int -> bool =
   else if mode = -1 then (fun a b -> let d = a - b in d >= -1 && d <= 1)
   else if mode = -2 then (fun a b -> a < b)
   else if mode = -3 then (fun a b -> a <= b)
+  else if mode = -4 then (fun a b -> a = b && a <> 3)
   else (fun a b -> a = b)
 
 let op_char o = Char.chr (int_of_z (M.op_code o))
@@ -33,7 +34,7 @@ let show_edits lcap rcap (es : int M.edit list) =
   end
 
 let parse_input inp =
-  match words inp with
+  match words (String.map (fun c -> if c = '_' then ' ' else c) inp) with
   | ["E"; mode; l; r] -> Some (int_of_string mode, ints_of l, ints_of r, [777; 777; 777], [888; 888; 888])
   | ["E"; mode; l; r; lx; rx] -> Some (int_of_string mode, ints_of l, ints_of r, ints_of lx, ints_of rx)
   | _ -> None
@@ -100,7 +101,7 @@ let lcs_len eq l r =
 
 let spec prop inp out =
   match prop, parse_input inp with
-  | "C11", Some (mode, l, r, lx, rx) when mode >= 0 ->
+  | "C11", Some (mode, l, r, lx, rx) when mode >= 0 || mode = -4 ->
     let eq = eq_for mode in
     if String.length out >= 5 && String.sub out 0 5 = "PANIC" then Some "EditScript panicked" else
     (match split3 out with
